@@ -155,7 +155,7 @@ def strata():
 
 def with_clients(base):
     return st.tuples(base, st.integers(0, 3), st.sampled_from(
-        ['plain', 'prefix-desc', 'prefix-asc', 'reverse'])).map(
+        ['plain', 'prefix-desc', 'prefix-asc', 'reverse', 'padded'])).map(
             lambda t: {**t[0], 'clients': t[1], 'naming': t[2]})
 
 
